@@ -48,7 +48,7 @@ func buildCLI(dir string) (string, string) {
 }
 
 func runC20(res *Result, tier string, seed int64, replay string) {
-	res.Rule = "the built gomjml binary, one fresh process per case: documents {valid, carousel (random id), head attributes, invalid-attribute, unparsable, empty, missing path, directory} × output {-o file, -s, neither, both, -o into a missing directory} × --debug × --cache × --cache-ttl {absent, 1ns, 0s, -1s, 10m, 2562047h} × --cache-cleanup-interval {absent, 0s, 1ns, 1m, -5s}; observed exit code / stdout / stderr / output-file bytes (pre-existing file holds a sentinel) vs the Lean decision model (driver `cli`) applied to the in-process mjml.Render result with the corresponding options. + inputs that are not regular files (a named pipe, /dev/stdin fed by a pipe; to standard output and to -o) + path cases (relative paths, '..' through real and symlinked directories, trailing separators, missing components, symlinked files, absolute paths; for the input and for -o) judged against what os.ReadFile / os.WriteFile do with the same strings. Non-trivial = case that reaches the library; distinct by case tuple"
+	res.Rule = "the built gomjml binary, one fresh process per case: documents {valid, carousel (random id), head attributes, invalid-attribute, unparsable, empty, missing path, directory} × output {-o file, -s, neither, both, -o into a missing directory} × --debug × --cache × --cache-ttl {absent, 1ns, 0s, -1s, 10m, 2562047h} × --cache-cleanup-interval {absent, 0s, 1ns, 1m, -5s}; observed exit code / stdout / stderr / output-file bytes (pre-existing file holds a sentinel) vs the Lean decision model (driver `cli`) applied to the in-process mjml.Render result with the corresponding options. + inputs that are not regular files (a named pipe, /dev/stdin fed by a pipe; to standard output and to -o) + path cases (relative paths, '..' through real and symlinked directories, trailing separators, missing components, symlinked files, absolute paths, the path \"-\" with and without a file of that name and a document waiting on standard input; for the input and for -o) judged against what os.ReadFile / os.WriteFile do with the same strings. Non-trivial = case that reaches the library; distinct by case tuple"
 	dir, err := os.MkdirTemp("", "verif-c20-")
 	if err != nil {
 		res.Disagree(Violation{Sig: "tmpdir", What: err.Error()})
@@ -286,7 +286,11 @@ func c20Paths(res *Result, bin, dir string) {
 		{"in-trailing-separator", "in.mjml/", "out.html"}, {"in-missing-component", "missing/../in.mjml", "out.html"},
 		{"out-trailing-separator", "in.mjml", "out.html/"}, {"out-missing-component", "in.mjml", "missing/../out.html"},
 		{"in-symlinked-file", "link.mjml", "out.html"}, {"absolute", "ABS/in.mjml", "ABS/sub/out.html"},
+		// a path is a path: "-" names the file called "-" (there is one in the first case, none in the other two); a valid
+		// document waits on standard input in every case and must not be read
+		{"dash-file", "-", "out.html"}, {"dash-missing", "-", "out.html"}, {"dash-missing-stdout", "-", ""},
 	}
+	docStdin := `<mjml><mj-body><mj-section><mj-column><mj-text>from standard input</mj-text></mj-column></mj-section></mj-body></mjml>`
 	for i, c := range cases {
 		wd := filepath.Join(dir, fmt.Sprintf("path%d", i))
 		os.MkdirAll(filepath.Join(wd, "shared", "templates"), 0o755)
@@ -295,6 +299,9 @@ func c20Paths(res *Result, bin, dir string) {
 		os.WriteFile(filepath.Join(wd, "shared", "in.mjml"), []byte(docX), 0o644)
 		os.Symlink(filepath.Join("shared", "templates"), filepath.Join(wd, "tpl"))
 		os.Symlink(filepath.Join("shared", "in.mjml"), filepath.Join(wd, "link.mjml"))
+		if c.name == "dash-file" {
+			os.WriteFile(filepath.Join(wd, "-"), []byte(docX), 0o644)
+		}
 		in := strings.ReplaceAll(c.in, "ABS", wd)
 		out := strings.ReplaceAll(c.out, "ABS", wd)
 		// what the operating system makes of the very same strings, from the same directory
@@ -329,6 +336,7 @@ func c20Paths(res *Result, bin, dir string) {
 		}
 		cmd := exec.Command(bin, args...)
 		cmd.Dir = wd
+		cmd.Stdin = strings.NewReader(docStdin)
 		var so, se bytes.Buffer
 		cmd.Stdout, cmd.Stderr = &so, &se
 		runErr := cmd.Run()
@@ -344,6 +352,13 @@ func c20Paths(res *Result, bin, dir string) {
 				fail("exit-code", fmt.Sprintf("the operating system refuses this path (read: %v, write: %v) but the command exits 0", rerr, werr))
 			} else if se.Len() == 0 {
 				fail("stderr", "the command fails without a message on standard error")
+			} else if so.Len() != 0 {
+				fail("stdout-on-error", "the command fails and still writes to standard output")
+			}
+			if wantErr && out != "" && werr == nil {
+				if _, serr := os.Stat(filepath.Join(wd, out)); serr == nil {
+					fail("file-created-on-error", "the input cannot be read, yet the output file was created")
+				}
 			}
 		case runErr != nil:
 			fail("exit-code", fmt.Sprintf("the operating system accepts these paths but the command fails: %v %s", runErr, short(se.String(), 200)))
